@@ -273,6 +273,7 @@ var (
 	lastB = []ct.Comp{ct.Q, ct.P, ct.L, ct.S, ct.T9, ct.Z, ct.T7, ct.T8, ct.T10, ct.T11, ct.R1}
 	// without relation components (arity 4-10): queries over archetypes that have no relation tables
 	plain = []ct.Comp{ct.L, ct.P, ct.Z, ct.Q, ct.S, ct.T7, ct.T8, ct.T9, ct.T10, ct.T11}
+	twoRel = []ct.Comp{ct.S, ct.R2, ct.P, ct.R1, ct.Z, ct.Q}
 )
 
 func arityTuples(maxN, minN int) [][]ct.Comp {
@@ -287,6 +288,10 @@ func arityTuples(maxN, minN int) [][]ct.Comp {
 		out = append(out, append(append([]ct.Comp{}, lastB[:n-1]...), ct.R2))
 		if n >= 4 && n <= len(plain) {
 			out = append(out, append([]ct.Comp{}, plain[:n]...))
+		}
+		if n == 5 || n == 6 {
+			// two relation components at every arity (arities 2-4 and 7-12 have such tuples already)
+			out = append(out, append([]ct.Comp{}, twoRel[:n]...))
 		}
 	}
 	return out
